@@ -68,6 +68,9 @@ fn replay(args: &[String]) -> i32 {
 	let v: Value = serde_json::from_slice(&std::fs::read(file).expect("read replay file")).expect("parse replay file");
 	let prop = v["property"].as_str().unwrap_or("").to_lowercase();
 	println!("replaying {} — {}", v["key"], v["what"]);
+	if v["replay"]["same_instance"] == true {
+		crate::explore::SAME_INSTANCE_REPLAY.store(true, std::sync::atomic::Ordering::SeqCst);
+	}
 	match prop.as_str() {
 		"c01" => c01::replay(&v["replay"]),
 		"c02" => c02::replay(&v["replay"]),
